@@ -12,7 +12,12 @@ BOUND = ("networks with <= 6(7) variables (exhaustive 1-variable, sampled 2-vari
          "list may be answered by the node's seeds (documented behaviour of reclaim_node_data); about half of the cases run under a NON-default configuration "
          "(max_motifs_per_node in 0..5, attractor_candidates_limit / retained_set_optimization_threshold in 0..3, minimum_simulation_budget in {0,1}, "
          "nfvs_size_threshold in {0,1,3}), first on networks whose root has 4-6 stable motifs (k independent switches) so that H2 calls hit the limits; the "
-         "configuration itself is compared too")
+         "configuration itself is compared too; plus the lone-candidate shape: oscillator x marker networks (<= 7 variables; a marker variable that can only be lost / gained while "
+         "a negative cycle oscillates) and motif-avoidant networks, fully or partly expanded, candidates of every node computed with simulation / greedy minification on or "
+         "off so that an expanded non-minimal node holds exactly one candidate and no seeds, then reclaim_node_data (with / without pickle), then seeds / sets of every node; "
+         "after the transformation and after every later attractor query the seeds and sets held by the transformed diagram are also compared with the brute-force "
+         "attractors owned by each node; one case in eight additionally runs on the network with its variables declared in reversed name order (AEON API), "
+         "because pickling re-parses the network from text")
 RULE = "non-trivial = the diagram had at least 3 nodes or some cached attractor data at the moment of the transformation"
 CASE_TIMEOUT = 60.0
 
@@ -101,7 +106,36 @@ def general_cases(seed, tier):
                     h2.append(families.random_step(rng, names, [op]))
             transform = rng.choice(TRANSFORMS)
             cfg = families.config_variant(rng) if rnd % 2 else {}  # every second round: a non-default configuration
-            yield {"net": name, "bnet": bnet, "config": cfg, "h1": h1, "transform": transform, "h2": h2}
+            case = {"net": name, "bnet": bnet, "config": cfg, "h1": h1, "transform": transform, "h2": h2}
+            if rnd == 1 and len(names) >= 2 and "pickle" in transform:
+                # the same case on the network with its variables declared in reversed name order (the text round trip of pickling re-orders them)
+                yield dict(case, var_order="reversed")
+            yield case
+
+
+def make_sd_reversed(bnet, config):
+    """the same network with its variables declared in REVERSED name order (built through the AEON API: parsers always produce name order).
+    Pickling re-parses the network from text, so this is the input on which a variable order that does not survive the round trip shows."""
+    from common import import_biobalm
+    import_biobalm()
+    from biodivine_aeon import BooleanNetwork
+    from biobalm import SuccessionDiagram
+
+    bn0 = BooleanNetwork.from_bnet(bnet).infer_valid_graph()
+    bn = BooleanNetwork(list(reversed(bn0.variable_names())))
+    rules = []
+    for ln in bn0.to_aeon().splitlines():
+        ln = ln.strip()
+        if ln.startswith("$"):
+            rules.append(ln[1:].split(":", 1))
+        elif ln and not ln.startswith("#"):
+            bn.add_regulation(ln)
+    for v, f in rules:
+        bn.set_update_function(v.strip(), f.strip())
+    cfg = SuccessionDiagram.default_config()
+    if config:
+        cfg.update(config)
+    return SuccessionDiagram(bn, cfg)
 
 
 def compare(a, b, when, tolerate_reclaim=True):
@@ -138,8 +172,9 @@ def oracle_check(sd, net, when):
 def check_with_info(case):
     net = oracle.Net.from_bnet(case["bnet"])
     info = net_info(net)
-    a = make_sd(case["bnet"], case.get("config"))
-    b = make_sd(case["bnet"], case.get("config"))
+    mk = make_sd_reversed if case.get("var_order") == "reversed" else make_sd
+    a = mk(case["bnet"], case.get("config"))
+    b = mk(case["bnet"], case.get("config"))
     a, la = run_history(a, case["h1"])
     b, lb = run_history(b, case["h1"])
     out = []
